@@ -1,16 +1,36 @@
-(* C15 - the hand-modelled closures of instructions.go (makePush, makeDup,
-   makeSwap via Stack.dup / Stack.swap) meet the specification of PUSHn, DUPn
-   and SWAPn on every well-formed configuration. *)
+(* C15 - PUSHn, DUPn, SWAPn at the level of configurations: three functions on
+   the heap machine ([push_sem], [dup_sem], [swap_sem]) meet the specification on
+   every well-formed configuration.  ProofsOps6.v shows that the bodies
+   regenerated from makePush / makeDup+Stack.dup / makeSwap+Stack.swap compute
+   exactly these functions. *)
 From Coq Require Import Lia ZifyBool ZifyN ZifyNat Permutation.
 From VF.C15 Require Import Model ProofsArith ProofsHeap ProofsTac.
 Local Open Scope Z_scope.
+
+Definition push_sem (code : list N) (pc n : N) (c : cfg) : cfg :=
+  let '(l, c1) := pool_get c in push (write c1 l (be_to_Z (push_bytes code pc n))) l.
+Definition dup_sem (n : N) (c : cfg) : option cfg :=
+  match nth_error (stack c) (N.to_nat n - 1) with
+  | None => None
+  | Some src => if (n =? 0)%N then None else
+    let '(l, c1) := pool_get c in Some (push (write c1 l (heap c1 src)) l)
+  end.
+Definition swap_sem (n : N) (c : cfg) : option cfg :=
+  match stack c, nth_error (stack c) (N.to_nat n - 1) with
+  | top :: _, Some other =>
+    if (n =? 0)%N then None else
+    let st1 := firstn (N.to_nat n - 1) (stack c) ++ top :: skipn (N.to_nat n) (stack c) in
+    let st2 := match st1 with [] => [] | _ :: r => other :: r end in
+    Some (mkCfg (heap c) (next c) st2 (pool c) (mem c) (stor c))
+  | _, _ => None
+  end.
 
 Section Closures.
 Variable gv : list Z.
 
 Ltac open_wf' Hwf :=
   let Hnd := fresh "Hnd" in let Hal := fresh "Hal" in let Hr := fresh "Hr" in
-  destruct Hwf as [Hnd Hal Hr Hg Hn Hm]; cbn [stack pool heap next mem] in *;
+  destruct Hwf as [Hnd Hal Hr Hg Hn Hm]; cbn [stack pool heap next mem stor] in *;
   cbn [app] in *; nd_hyps.
 
 Lemma push_bytes_length code pc n : length (push_bytes code pc n) = N.to_nat n.
@@ -28,16 +48,16 @@ Qed.
 (* PUSHn *)
 Lemma push_correct code pc n c :
   bytes_ok code -> (n <= 32)%N -> WF gv c ->
-  exists c', run_body code pc (SPushCode n) c = Some c' /\ WF gv c' /\
-             svals c' = be_to_Z (push_bytes code pc n) :: svals c /\ mem c' = mem c.
+  exists c', push_sem code pc n c = c' /\ WF gv c' /\
+             svals c' = be_to_Z (push_bytes code pc n) :: svals c /\ mem c' = mem c /\ stor c' = stor c.
 Proof.
-  intros Hcode Hn32 Hwf. destruct c as [h nx st pl m].
+  intros Hcode Hn32 Hwf. destruct c as [h nx st pl m sr].
   assert (Hrg : inrange (be_to_Z (push_bytes code pc n))).
   { apply be_to_Z_range; [apply push_bytes_ok, Hcode|rewrite push_bytes_length; lia]. }
-  open_wf' Hwf. unfold run_body. cbn [exec].
+  open_wf' Hwf. unfold push_sem.
   unfold pool_get. cbn [pool]. destruct pl as [|p pl]; cbn [app] in *; nd_hyps;
-    unfold alloc, write, push; cbn [stack heap next pool mem];
-    (eexists; split; [reflexivity|]; split; [|split; [|reflexivity]]).
+    unfold alloc, write, push; cbn [stack heap next pool mem stor];
+    (eexists; split; [reflexivity|]; split; [|split; [|split; reflexivity]]).
   - apply WF_mk; cbn [app]; [nodup|alloc_all|finish_range; exact Hrg|glob|lia|assumption].
   - unfold svals. cbn [stack heap map]. simp_heap. rewrite ?map_upd_notin by notin. reflexivity.
   - apply WF_mk; cbn [app]; [nodup|alloc_all|finish_range; exact Hrg|glob|lia|assumption].
@@ -45,24 +65,24 @@ Proof.
 Qed.
 
 (* DUPn: k = n - 1 *)
-Lemma dup_correct code pc (k : nat) c x :
+Lemma dup_correct (k : nat) c x :
   WF gv c -> nth_error (svals c) k = Some x ->
-  exists c', run_body code pc (SDup (N.of_nat (S k))) c = Some c' /\ WF gv c' /\
-             svals c' = x :: svals c /\ mem c' = mem c.
+  exists c', dup_sem (N.of_nat (S k)) c = Some c' /\ WF gv c' /\
+             svals c' = x :: svals c /\ mem c' = mem c /\ stor c' = stor c.
 Proof.
-  intros Hwf Hx. destruct c as [h nx st pl m]. unfold svals in Hx. cbn [stack heap] in Hx.
+  intros Hwf Hx. destruct c as [h nx st pl m sr]. unfold svals in Hx. cbn [stack heap] in Hx.
   rewrite nth_error_map in Hx. destruct (nth_error st k) as [src|] eqn:Esrc; [|discriminate].
   cbn in Hx. injection Hx as <-.
   assert (Hsrc_in : In src st) by (eapply nth_error_In; eassumption).
   pose proof Hwf as Hwf0.
-  destruct Hwf as [Hnd Hal Hr Hg Hn Hm]; cbn [stack pool heap next mem] in *.
+  destruct Hwf as [Hnd Hal Hr Hg Hn Hm]; cbn [stack pool heap next mem stor] in *.
   assert (Hsrc_rg : inrange (h src)) by (rewrite Forall_forall in Hr; apply Hr, Hsrc_in).
-  unfold run_body. cbn [exec stack].
+  unfold dup_sem. cbn [stack].
   replace (N.to_nat (N.of_nat (S k)) - 1)%nat with k by lia. rewrite Esrc.
   replace (N.of_nat (S k) =? 0)%N with false by lia.
   unfold pool_get. cbn [pool]. destruct pl as [|p pl].
-  - unfold alloc, write, push; cbn [stack heap next pool mem].
-    eexists; split; [reflexivity|]; split; [|split; [|reflexivity]].
+  - unfold alloc, write, push; cbn [stack heap next pool mem stor].
+    eexists; split; [reflexivity|]; split; [|split; [|split; reflexivity]].
     + rewrite app_nil_r in *.
       assert (Hfr : ~ In nx st) by (eapply allocated_fresh; eassumption).
       apply WF_mk; cbn [app]; rewrite ?app_nil_r.
@@ -80,8 +100,8 @@ Proof.
   - apply NoDup_app_iff in Hnd as (Hs & Hp & Hd). apply NoDup_cons_iff in Hp as (Hpn & Hp).
     apply Forall_app in Hal as (Ha1 & Ha2). apply Forall_cons_iff in Ha2 as (Hap & Ha2).
     assert (Hfr : ~ In p st) by (intros Hi; eapply Hd; [exact Hi|left; reflexivity]).
-    unfold write, push; cbn [stack heap next pool mem].
-    eexists; split; [reflexivity|]; split; [|split; [|reflexivity]].
+    unfold write, push; cbn [stack heap next pool mem stor].
+    eexists; split; [reflexivity|]; split; [|split; [|split; reflexivity]].
     + apply WF_mk; cbn [app].
       * apply NoDup_cons_iff. split.
         -- apply not_in_app. split; assumption.
@@ -109,16 +129,16 @@ Proof.
     apply perm_skip. apply Permutation_middle.
 Qed.
 
-Lemma swap_correct code pc (k : nat) c a r b :
+Lemma swap_correct (k : nat) c a r b :
   WF gv c -> svals c = a :: r -> nth_error r k = Some b ->
-  exists c', run_body code pc (SSwap (N.of_nat (S (S k)))) c = Some c' /\ WF gv c' /\
-             svals c' = b :: firstn k r ++ a :: skipn (S k) r /\ mem c' = mem c.
+  exists c', swap_sem (N.of_nat (S (S k))) c = Some c' /\ WF gv c' /\
+             svals c' = b :: firstn k r ++ a :: skipn (S k) r /\ mem c' = mem c /\ stor c' = stor c.
 Proof.
-  intros Hwf Hst Hb. destruct c as [h nx st pl m]. unfold svals in Hst. cbn [stack heap] in Hst.
+  intros Hwf Hst Hb. destruct c as [h nx st pl m sr]. unfold svals in Hst. cbn [stack heap] in Hst.
   destruct st as [|la ls]; [discriminate|]. cbn [map] in Hst. injection Hst as <- <-.
   rewrite nth_error_map in Hb. destruct (nth_error ls k) as [lb|] eqn:Elb; [|discriminate].
   cbn in Hb. injection Hb as <-.
-  unfold run_body. cbn [exec stack].
+  unfold swap_sem. cbn [stack].
   replace (N.to_nat (N.of_nat (S (S k))) - 1)%nat with (S k) by lia.
   cbn [nth_error]. rewrite Elb.
   replace (N.of_nat (S (S k)) =? 0)%N with false by lia.
@@ -126,8 +146,8 @@ Proof.
   cbn [firstn skipn app heap next pool mem].
   eexists. split; [reflexivity|].
   pose proof (swap_perm la lb ls k Elb) as Hperm.
-  destruct Hwf as [Hnd Hal Hr Hg Hn Hm]; cbn [stack pool heap next mem] in *.
-  split; [|split; [|reflexivity]].
+  destruct Hwf as [Hnd Hal Hr Hg Hn Hm]; cbn [stack pool heap next mem stor] in *.
+  split; [|split; [|split; reflexivity]].
   - apply WF_mk; try assumption.
     + eapply Permutation_NoDup; [|exact Hnd]. apply Permutation_app_tail. symmetry. exact Hperm.
     + eapply Permutation_Forall; [|exact Hal]. apply Permutation_app_tail. symmetry. exact Hperm.
